@@ -20,6 +20,13 @@
 //     own-module and relative lookups from nodes of the kept trees must be answered by the kept
 //     tree itself (pointer identity), lookups crossing into another module by its current tree.
 //
+//   - FROM DISK (disk.go): a share of the sets (a hand-written chain of imports three deep with
+//     submodules, 1/6 of the generated sets) is written to a directory tree; only some texts are
+//     handed over (only the importer, only a submodule's owner, a submodule with its owner, some,
+//     all), the rest is found by Process on the search path (flat, dated file names,
+//     sub-directories under "dir/...", two directories, Read(path) of the roots); the same texts
+//     all handed over give the expected node set, every node the from-disk trees lack is looked up.
+//
 // After every call the trees are re-walked (node and error counts), after the read-only phase the
 // pointer map and the full dump are compared with the ones before. The same calls, in the same
 // order, are sent to the Lean driver drv_find (model `find` threaded through the forest) and the
@@ -1290,6 +1297,9 @@ func judge(w worked, res *lib.Result, t *tally, verbose bool) (bad bool) {
 			}
 			reportedSpec++
 			what := fmt.Sprintf("%s: %s returned %s, the path names %s", kf[0], readableQuery(q[i]), readableLoc(goLoc), readableLoc(want[i]))
+			if strings.HasPrefix(classOf, "disk-") || strings.Contains(kf[0], ":disk-") {
+				what += "[a node these texts have when every one is handed to Modules.Parse; both ways of loading a set must give trees with the same schema paths, and every path must be found; loaded here: " + c.Extra["label"] + "]"
+			}
 			if keptPert != "" {
 				what = fmt.Sprintf("lookup on a processed tree does not return that very node: after %s on the Modules value, %s in the tree kept from Process returned %s; the path names %s of that same tree (an own-module or relative path is answered by the tree the start node lives in, whatever the Modules value's conversion cache holds by now) [%s]",
 					keptPert, readableQuery(q[i]), strings.TrimSpace(readableLoc(goLoc)), strings.TrimSpace(readableLoc(want[i])), keptBase)
@@ -1498,7 +1508,7 @@ func main() {
 	}
 	res.Evaluations = t.queries
 	res.DistinctNontrivial = t.triples.Len()
-	res.Rule = "hand-written corpus (the Lean example forest, submodules, grouping copies from other modules, implicit cases, absent rpc/action input and output, the documented-limit witnesses D17-L1, the rejected augment into an rpc node) + seeded grammar-directed module sets (harness/gen; 3/4 without deliberate faults; 3/8 with prefixes re-assigned so that import prefixes and own prefixes collide with module names (name of another import before or after it, own module name, mutual) and shuffled import order; 3/8 with bare nodes grafted by importing modules directly into foreign choices (their implied cases are start nodes whose prefix context is the augmenting module); 1/4 with added late augments: target through or at the implied case of a shorthand choice member, body with shorthand choice members, written in the owning module, a submodule or an importing module); per error-free set all (start, target) pairs of nodes of all module and submodule trees up to 40 nodes (sampled beyond) x absolute path under every prefix the start's context module binds to the target's module (3 spellings) and relative path, + one-corrupted-step paths (unknown name, empty step, bogus below rpc, step below a leaf, `..` above the root, unbound prefix, an imported module's name used as prefix, a step inserted before or put in place of any step with names from the structural pool (module names and prefixes, input/output, grouping/typedef/identity names), Entry.Path() used as a lookup, and every name of a deeper descendant used as a direct step, absolute and relative), + creation of absent rpc inputs/outputs + the same lookups (sampled, every kind) re-asked after each of up to six refused loads (bundle [newer revision of a loaded module, duplicate], [new module, duplicate], single duplicate, syntax error, unknown statement) on the same processed trees; + KEPT TREES (every corpus and generated set): the processed trees are kept while the Modules value moves on — ClearEntryCache, Process again, GetModule of one of the modules, one more unrelated module loaded and Process, all four one after the other in a seeded order — and after each step up to 36 absolute own-module, 14 relative and 14 corrupted lookups of the kinds above (sampled) are repeated FROM NODES OF THE KEPT TREES: rule: a relative path and an absolute path whose first step denotes the module of the tree the start node lives in (by its prefix read in the start's context module; bare: the start's own module) must return, by pointer identity, the entry reached by walking the kept tree (nil for a corrupted path) and leave the trees unchanged — these are compared with the model too, whose forest is the kept forest; up to 16 absolute lookups per step that cross into ANOTHER module's tree (foreign first prefix; any absolute path started in a submodule's private tree) must return the entry reached by walking the target's steps from yang.ToEntry(that module) as it is at the time of the call (its current tree; nil when that tree has no such node, e.g. a grafted node after ClearEntryCache) or the node of that module's kept tree, and change no kept tree — Go-side oracle only (the model has one forest), the current tree is read after the call so that the oracle does not fill the conversion cache on the lookup's behalf; evaluations = Find calls compared with the model; distinct_nontrivial = distinct (set, start, target) triples looked up with a path of at least 2 steps"
+	res.Rule = "hand-written corpus (the Lean example forest, submodules, grouping copies from other modules, implicit cases, absent rpc/action input and output, the documented-limit witnesses D17-L1, the rejected augment into an rpc node) + seeded grammar-directed module sets (harness/gen; 3/4 without deliberate faults; 3/8 with prefixes re-assigned so that import prefixes and own prefixes collide with module names (name of another import before or after it, own module name, mutual) and shuffled import order; 3/8 with bare nodes grafted by importing modules directly into foreign choices (their implied cases are start nodes whose prefix context is the augmenting module); 1/4 with added late augments: target through or at the implied case of a shorthand choice member, body with shorthand choice members, written in the owning module, a submodule or an importing module); per error-free set all (start, target) pairs of nodes of all module and submodule trees up to 40 nodes (sampled beyond) x absolute path under every prefix the start's context module binds to the target's module (3 spellings) and relative path, + one-corrupted-step paths (unknown name, empty step, bogus below rpc, step below a leaf, `..` above the root, unbound prefix, an imported module's name used as prefix, a step inserted before or put in place of any step with names from the structural pool (module names and prefixes, input/output, grouping/typedef/identity names), Entry.Path() used as a lookup, and every name of a deeper descendant used as a direct step, absolute and relative), + creation of absent rpc inputs/outputs + the same lookups (sampled, every kind) re-asked after each of up to six refused loads (bundle [newer revision of a loaded module, duplicate], [new module, duplicate], single duplicate, syntax error, unknown statement) on the same processed trees; + KEPT TREES (every corpus and generated set): the processed trees are kept while the Modules value moves on — ClearEntryCache, Process again, GetModule of one of the modules, one more unrelated module loaded and Process, all four one after the other in a seeded order — and after each step up to 36 absolute own-module, 14 relative and 14 corrupted lookups of the kinds above (sampled) are repeated FROM NODES OF THE KEPT TREES: rule: a relative path and an absolute path whose first step denotes the module of the tree the start node lives in (by its prefix read in the start's context module; bare: the start's own module) must return, by pointer identity, the entry reached by walking the kept tree (nil for a corrupted path) and leave the trees unchanged — these are compared with the model too, whose forest is the kept forest; up to 16 absolute lookups per step that cross into ANOTHER module's tree (foreign first prefix; any absolute path started in a submodule's private tree) must return the entry reached by walking the target's steps from yang.ToEntry(that module) as it is at the time of the call (its current tree; nil when that tree has no such node, e.g. a grafted node after ClearEntryCache) or the node of that module's kept tree, and change no kept tree — Go-side oracle only (the model has one forest), the current tree is read after the call so that the oracle does not fill the conversion cache on the lookup's behalf; + FROM DISK: the hand-written chain main -> m1 -> m2(+m2s) -> m3(+m3s) (augments of the own tree, through implied cases, of the imported module, of nodes another module grafted, into rpc input/output, shorthand choice members and deviations in every module but the first) in 9 splits between handed over and found x 5 layouts (flat, name@date.yang, sub-directories under dir/..., two directories, Read(path) with no search path) x Parse/Read of the roots, the importer-only pair of seeded change C17-l22, and 1/6 of the generated sets (up to 4 modules, plus augments of the own tree and of imported modules in every module and submodule; roots: the modules nobody imports, then none / some / a submodule with its owner / all modules; never a submodule alone: D04-P1): the texts that ended up loaded are also all handed to a second Modules value, both runs must agree on being error free and on the set of (tree, steps, kind) of all nodes; every node the from-disk trees lack is looked up by absolute path from the roots of all trees and four other start nodes under every prefix and by relative path from its deepest existing ancestor (kinds disk-abs, disk-rel: the answer must be the node at those steps), then all the lookups above run on the from-disk trees and the model is asked with the loaded texts; evaluations = Find calls compared with the model; distinct_nontrivial = distinct (set, start, target) triples looked up with a path of at least 2 steps"
 	res.Distribution["sets_compared"] = t.sets
 	res.Distribution["sets_without_trees(errors/parse)"] = t.noTrees
 	res.Distribution["outside_model"] = t.outside
